@@ -159,7 +159,8 @@ theorem csi_built_cwf (ms d : Nat) (hd : d ≤ 9) (hms : ms < 2147483648) (hgeom
       have hok := h.ok a (hrec a ha).1
       obtain ⟨h0, hlt⟩ := hok.pos (hrec a ha).2
       have hv := hok.vstop
-      simp only [Csi.validPos, Bool.and_eq_true, decide_eq_true_eq] at hv
+      simp only [Csi.validPos, Csi.posBound_of_le (show ms + 3 * d ≤ 63 by omega), Bool.and_eq_true,
+        decide_eq_true_eq] at hv
       exact reg2bin_lt_binLimit ms d hd a.start a.stop h0 hlt (by omega)
     have hcount : ref.bins.length ≤ csiBinLimit d := by
       have := nodup_length_le (csiBinLimit d) (ref.bins.map (·.bin)) ri.nodup
